@@ -1,3 +1,727 @@
 (** C15 — lemmas about Model/C15_Bv.v *)
+From Coq Require Import Qfield Setoid Morphisms.
 From PV Require Import Lib.Common Model.C15_Bv.
 Local Open Scope Q_scope.
+Local Arguments Qred : simpl never.
+Local Arguments Qplus : simpl never.
+Local Arguments Qminus : simpl never.
+Local Arguments Qmult : simpl never.
+Local Arguments Qinv : simpl never.
+Local Arguments Qdiv : simpl never.
+Local Arguments Qopp : simpl never.
+Local Arguments Qeq : simpl never.
+Local Arguments Qle_bool : simpl never.
+Local Arguments Qeq_bool : simpl never.
+Local Arguments inject_Z : simpl never.
+
+(** * equality of possibly-missing rationals, columns, raw states *)
+Definition oeq (a b : oq) : Prop :=
+  match a, b with Some x, Some y => x == y | None, None => True | _, _ => False end.
+Definition coleq := Forall2 oeq.
+Definition ooeq (a b : option oq) : Prop :=
+  match a, b with Some x, Some y => oeq x y | None, None => True | _, _ => False end.
+
+Lemma oeq_refl a : oeq a a.
+Proof. destruct a; cbn; [reflexivity|exact I]. Qed.
+Lemma oeq_sym a b : oeq a b -> oeq b a.
+Proof. destruct a, b; cbn; auto. intros H; now symmetry. Qed.
+Lemma oeq_trans a b c : oeq a b -> oeq b c -> oeq a c.
+Proof. destruct a, b, c; cbn; auto; try tauto. intros H1 H2; now rewrite H1. Qed.
+Lemma coleq_refl c : coleq c c.
+Proof. induction c; constructor; auto using oeq_refl. Qed.
+Lemma coleq_sym a b : coleq a b -> coleq b a.
+Proof. induction 1; constructor; auto using oeq_sym. Qed.
+Lemma coleq_trans a b c : coleq a b -> coleq b c -> coleq a c.
+Proof.
+  intros H; revert c; induction H as [|x y tx ty Hxy _ IH]; intros c H2; inversion H2; subst; constructor.
+  - eapply oeq_trans; eassumption.
+  - now apply IH.
+Qed.
+
+Lemma oeq_none_pattern a b : oeq a b -> is_none a = is_none b.
+Proof. destruct a, b; cbn; tauto. Qed.
+
+(** * the round trip  scale * ((1/scale) * (x - location)) + location = x *)
+Lemma roundtrip_elem (x : oq) (l s : Q) : ~ s == 0 ->
+  oeq (oadd (omul (Some s) (omul (oinv (Some s)) (osub x (Some l)))) (Some l)) x.
+Proof.
+  intros Hs. destruct x as [v|]; [|exact I].
+  unfold oadd, omul, osub, oinv, olift2, oeq.
+  rewrite !Qred_correct. field. exact Hs.
+Qed.
+
+Lemma unscale_from_numpy_some (raw : list oq) (l s : Q) : ~ s == 0 ->
+  coleq (col_unscale (col_from_numpy raw (Some l) (Some s))) raw.
+Proof.
+  intros Hs. unfold col_unscale, col_from_numpy; cbn. rewrite map_map.
+  induction raw as [|x t IH]; cbn; constructor; [apply roundtrip_elem; exact Hs | exact IH].
+Qed.
+
+Lemma somes_nil_all_none (raw : list oq) : somes raw = [] -> Forall (fun x => x = None) raw.
+Proof. induction raw as [|[v|] t IH]; cbn; intros H; [constructor | discriminate | constructor; auto]. Qed.
+
+Lemma unscale_from_numpy_allnone (raw : list oq) (l s : oq) : Forall (fun x => x = None) raw ->
+  coleq (col_unscale (col_from_numpy raw l s)) raw.
+Proof.
+  intros H. unfold col_unscale, col_from_numpy; cbn. rewrite map_map.
+  induction H as [|x t Hx _ IH]; cbn; constructor; [|exact IH].
+  subst x. destruct l, s; cbn; exact I.
+Qed.
+
+Lemma Qlt_bool_pos_nz (s : Q) : Qlt_bool 0 s = true -> ~ s == 0.
+Proof.
+  unfold Qlt_bool. intros H E. apply negb_true_iff in H.
+  assert (Qle_bool s 0 = true) by (apply Qle_bool_iff; rewrite E; apply Qle_refl). congruence.
+Qed.
+Lemma Qlt_bool_iff (a b : Q) : Qlt_bool a b = true <-> a < b.
+Proof.
+  unfold Qlt_bool. rewrite negb_true_iff. split.
+  - intros H. apply Qnot_le_lt. intros L. apply Qle_bool_iff in L. congruence.
+  - intros H. destruct (Qle_bool b a) eqn:E; [|reflexivity]. apply Qle_bool_iff in E. exfalso. exact (Qlt_not_le _ _ H E).
+Qed.
+
+(** parameters accepted by the run-time check: either nothing observed (and everything NaN) or location/scale present, scale non-zero *)
+Lemma params_shape (raw : list oq) (l s : oq) : loc_ok raw l = true -> sc_ok raw s = true ->
+  (Forall (fun x => x = None) raw /\ l = None /\ s = None) \/ (exists l' s', l = Some l' /\ s = Some s' /\ ~ s' == 0).
+Proof.
+  unfold loc_ok, sc_ok, nanmean, nanvar. destruct (somes raw) as [|v0 vt] eqn:E.
+  - intros H1 H2. left. destruct l; [discriminate|]. destruct s; [discriminate|]. split; [now apply somes_nil_all_none|auto].
+  - intros H1 H2. right. destruct l as [l'|]; [|discriminate]. destruct s as [s'|]; [|discriminate].
+    exists l', s'. split; [reflexivity|]. split; [reflexivity|].
+    destruct (Qeq_bool (var_q (v0 :: vt)) 0).
+    + apply Qeq_bool_iff in H2. intros E0. rewrite E0 in H2. discriminate H2.
+    + apply andb_prop in H2 as [H2 _]. now apply Qlt_bool_pos_nz.
+Qed.
+
+Lemma unscale_from_numpy_col (raw : list oq) (l s : oq) : loc_ok raw l = true -> sc_ok raw s = true ->
+  coleq (col_unscale (col_from_numpy raw l s)) raw.
+Proof.
+  intros H1 H2. destruct (params_shape raw l s H1 H2) as [[Hn _]|[l' [s' [-> [-> Hs]]]]].
+  - now apply unscale_from_numpy_allnone.
+  - now apply unscale_from_numpy_some.
+Qed.
+
+(** missing stays missing, nothing else becomes missing *)
+Lemma nan_isolated_col (raw : list oq) (l s : oq) : loc_ok raw l = true -> sc_ok raw s = true ->
+  map is_none (col_unscale (col_from_numpy raw l s)) = map is_none raw.
+Proof.
+  intros H1 H2. pose proof (unscale_from_numpy_col raw l s H1 H2) as H. clear H1 H2.
+  induction H as [|a b ta tb Hab _ IH]; cbn; [reflexivity|]. f_equal; [now apply oeq_none_pattern | exact IH].
+Qed.
+Lemma stored_nan_pattern (raw : list oq) (l s : Q) :
+  map is_none (cdat (col_from_numpy raw (Some l) (Some s))) = map is_none raw.
+Proof. cbn. rewrite map_map. apply map_ext. intros [v|]; reflexivity. Qed.
+
+(** * statistics: the stored column is the image of the raw column under a strictly increasing affine map *)
+Definition stf (l s x : Q) : Q := Qred (Qred (/ s) * Qred (x - l)).
+Local Arguments stf : simpl never.
+Lemma stf_eq l s x : stf l s x == (x - l) / s.
+Proof. unfold stf. rewrite !Qred_correct. unfold Qdiv. ring. Qed.
+Lemma stored_some (raw : list oq) (l s : Q) :
+  cdat (col_from_numpy raw (Some l) (Some s)) = map (fun x => match x with Some v => Some (stf l s v) | None => None end) raw.
+Proof. cbn. apply map_ext. intros [v|]; reflexivity. Qed.
+
+Lemma stf_le l s x y : 0 < s -> (stf l s x <= stf l s y <-> x <= y).
+Proof.
+  intros Hs. rewrite !stf_eq. unfold Qdiv.
+  assert (Hi : 0 < / s) by now apply Qinv_lt_0_compat.
+  rewrite (Qmult_le_r _ _ _ Hi). split; intros H.
+  - apply (Qplus_le_l _ _ (- l)). exact H.
+  - apply (Qplus_le_l _ _ (- l)) in H. exact H.
+Qed.
+Lemma stf_lt_bool l s x y : 0 < s -> Qlt_bool (stf l s x) (stf l s y) = Qlt_bool x y.
+Proof.
+  intros Hs. unfold Qlt_bool. f_equal.
+  destruct (Qle_bool y x) eqn:E.
+  - apply Qle_bool_iff. apply stf_le; [exact Hs|]. now apply Qle_bool_iff.
+  - destruct (Qle_bool (stf l s y) (stf l s x)) eqn:E2; [|reflexivity].
+    apply Qle_bool_iff in E2. apply stf_le in E2; [|exact Hs]. apply Qle_bool_iff in E2. congruence.
+Qed.
+
+Section Monotone.
+  Variable f : Q -> Q.
+  Hypothesis f_lt : forall x y, Qlt_bool (f x) (f y) = Qlt_bool x y.
+  Lemma qmax_l_map b v : qmax_l (f b) (map f v) = f (qmax_l b v).
+  Proof. revert b; induction v as [|x t IH]; intros b; cbn; [reflexivity|]. rewrite f_lt. destruct (Qlt_bool b x); apply IH. Qed.
+  Lemma qmin_l_map b v : qmin_l (f b) (map f v) = f (qmin_l b v).
+  Proof. revert b; induction v as [|x t IH]; intros b; cbn; [reflexivity|]. rewrite f_lt. destruct (Qlt_bool x b); apply IH. Qed.
+  Lemma argmax_l_map b bi i v : argmax_l (f b) bi i (map f v) = argmax_l b bi i v.
+  Proof. revert b bi i; induction v as [|x t IH]; intros b bi i; cbn; [reflexivity|]. rewrite f_lt. destruct (Qlt_bool b x); apply IH. Qed.
+  Lemma argmin_l_map b bi i v : argmin_l (f b) bi i (map f v) = argmin_l b bi i v.
+  Proof. revert b bi i; induction v as [|x t IH]; intros b bi i; cbn; [reflexivity|]. rewrite f_lt. destruct (Qlt_bool x b); apply IH. Qed.
+End Monotone.
+
+Definition omapf (f : Q -> Q) (x : oq) : oq := match x with Some v => Some (f v) | None => None end.
+Lemma allsome_map f c : allsome (map (omapf f) c) = omap (map f) (allsome c).
+Proof. induction c as [|[v|] t IH]; cbn; [reflexivity| |reflexivity]. rewrite IH. destruct (allsome t); reflexivity. Qed.
+Lemma first_none_map f i c : first_none i (map (omapf f) c) = first_none i c.
+Proof. revert i; induction c as [|[v|] t IH]; intros i; cbn; auto. Qed.
+Lemma somes_map f c : somes (map (omapf f) c) = map f (somes c).
+Proof. induction c as [|[v|] t IH]; cbn; [reflexivity| |exact IH]. now rewrite IH. Qed.
+
+Section MonotoneCol.
+  Variable f : Q -> Q.
+  Hypothesis f_lt : forall x y, Qlt_bool (f x) (f y) = Qlt_bool x y.
+  Lemma st_max_map c : st_max (map (omapf f) c) = omap (omapf f) (st_max c).
+  Proof.
+    destruct c as [|r0 rt]; [reflexivity|]. unfold st_max.
+    change (map (omapf f) (r0 :: rt)) with (omapf f r0 :: map (omapf f) rt) at 1. cbv iota.
+    rewrite allsome_map. destruct (allsome (r0 :: rt)) as [[|x t]|]; cbn; try reflexivity.
+    now rewrite (qmax_l_map f f_lt).
+  Qed.
+  Lemma st_min_map c : st_min (map (omapf f) c) = omap (omapf f) (st_min c).
+  Proof.
+    destruct c as [|r0 rt]; [reflexivity|]. unfold st_min.
+    change (map (omapf f) (r0 :: rt)) with (omapf f r0 :: map (omapf f) rt) at 1. cbv iota.
+    rewrite allsome_map. destruct (allsome (r0 :: rt)) as [[|x t]|]; cbn; try reflexivity.
+    now rewrite (qmin_l_map f f_lt).
+  Qed.
+  Lemma st_argmax_map c : st_argmax (map (omapf f) c) = st_argmax c.
+  Proof.
+    destruct c as [|r0 rt]; [reflexivity|]. unfold st_argmax.
+    change (map (omapf f) (r0 :: rt)) with (omapf f r0 :: map (omapf f) rt) at 1. cbv iota.
+    rewrite first_none_map, allsome_map. destruct (first_none 0 (r0 :: rt)); [reflexivity|].
+    destruct (allsome (r0 :: rt)) as [[|x t]|]; cbn; try reflexivity.
+    now rewrite (argmax_l_map f f_lt).
+  Qed.
+  Lemma st_argmin_map c : st_argmin (map (omapf f) c) = st_argmin c.
+  Proof.
+    destruct c as [|r0 rt]; [reflexivity|]. unfold st_argmin.
+    change (map (omapf f) (r0 :: rt)) with (omapf f r0 :: map (omapf f) rt) at 1. cbv iota.
+    rewrite first_none_map, allsome_map. destruct (first_none 0 (r0 :: rt)); [reflexivity|].
+    destruct (allsome (r0 :: rt)) as [[|x t]|]; cbn; try reflexivity.
+    now rewrite (argmin_l_map f f_lt).
+  Qed.
+End MonotoneCol.
+
+Lemma stored_omapf (raw : list oq) (l s : Q) : cdat (col_from_numpy raw (Some l) (Some s)) = map (omapf (stf l s)) raw.
+Proof. apply stored_some. Qed.
+Lemma pos_nz (s : Q) : 0 < s -> ~ s == 0.
+Proof. intros Hs E. rewrite E in Hs. exact (Qlt_irrefl _ Hs). Qed.
+
+(** maximum / minimum / range / arg-extrema on the original scale are those of the raw column
+    (numpy semantics: raise on an empty column, NaN as soon as a value is missing, first NaN wins the arg-extrema) *)
+Definition st_range (c : list oq) : option oq :=
+  match st_max c, st_min c with Some mx, Some mn => Some (osub mx mn) | _, _ => None end.
+
+Lemma tmax_commutes (raw : list oq) (l s : Q) : 0 < s -> ooeq (c_max true (col_from_numpy raw (Some l) (Some s))) (st_max raw).
+Proof.
+  intros Hs. unfold c_max. rewrite stored_omapf, (st_max_map _ (fun a b => stf_lt_bool l s a b Hs)).
+  destruct (st_max raw) as [[m|]|]; try exact I.
+  unfold omap, omapf, csc, cloc, col_from_numpy, oadd, omul, olift2, ooeq, oeq.
+  rewrite !Qred_correct, stf_eq. field. now apply pos_nz.
+Qed.
+Lemma tmin_commutes (raw : list oq) (l s : Q) : 0 < s -> ooeq (c_min true (col_from_numpy raw (Some l) (Some s))) (st_min raw).
+Proof.
+  intros Hs. unfold c_min. rewrite stored_omapf, (st_min_map _ (fun a b => stf_lt_bool l s a b Hs)).
+  destruct (st_min raw) as [[m|]|]; try exact I.
+  unfold omap, omapf, csc, cloc, col_from_numpy, oadd, omul, olift2, ooeq, oeq.
+  rewrite !Qred_correct, stf_eq. field. now apply pos_nz.
+Qed.
+Lemma trange_commutes (raw : list oq) (l s : Q) : 0 < s -> ooeq (c_range true (col_from_numpy raw (Some l) (Some s))) (st_range raw).
+Proof.
+  intros Hs. unfold c_range, st_range.
+  rewrite stored_omapf, (st_max_map _ (fun a b => stf_lt_bool l s a b Hs)), (st_min_map _ (fun a b => stf_lt_bool l s a b Hs)).
+  destruct (st_max raw) as [[mx|]|], (st_min raw) as [[mn|]|]; try exact I.
+  unfold omap, omapf, csc, cloc, col_from_numpy, osub, omul, olift2, ooeq, oeq.
+  rewrite !Qred_correct, !stf_eq. field. now apply pos_nz.
+Qed.
+Lemma targmax_commutes (raw : list oq) (l s : Q) : 0 < s -> c_argmax (col_from_numpy raw (Some l) (Some s)) = st_argmax raw.
+Proof. intros Hs. unfold c_argmax. now rewrite stored_omapf, (st_argmax_map _ (fun a b => stf_lt_bool l s a b Hs)). Qed.
+Lemma targmin_commutes (raw : list oq) (l s : Q) : 0 < s -> c_argmin (col_from_numpy raw (Some l) (Some s)) = st_argmin raw.
+Proof. intros Hs. unfold c_argmin. now rewrite stored_omapf, (st_argmin_map _ (fun a b => stf_lt_bool l s a b Hs)). Qed.
+
+(** * mean and variance under the standardising map *)
+Lemma sumQr_eq v : sumQr v == sumQ v.
+Proof. induction v as [|x t IH]; [reflexivity|]. unfold sumQr, sumQ in *. cbn [fold_right]. now rewrite Qred_correct, IH. Qed.
+Lemma sumQ_cons x v : sumQ (x :: v) = x + sumQ v.
+Proof. reflexivity. Qed.
+Lemma sumQ_map_ext (g h : Q -> Q) v : (forall x, g x == h x) -> sumQ (map g v) == sumQ (map h v).
+Proof. intros E. induction v as [|x t IH]; [reflexivity|]. cbn [map]. now rewrite !sumQ_cons, E, IH. Qed.
+Lemma qlen_cons x v : qlen (x :: v) == 1 + qlen v.
+Proof.
+  unfold qlen. cbn [length]. rewrite Nat2Z.inj_succ. unfold Z.succ. rewrite inject_Z_plus. ring.
+Qed.
+Lemma qlen_nonneg v : 0 <= qlen v.
+Proof. unfold qlen. change 0 with (inject_Z 0). rewrite <- Zle_Qle. apply Nat2Z.is_nonneg. Qed.
+Lemma qlen_pos x v : 0 < qlen (x :: v).
+Proof. rewrite qlen_cons. pose proof (qlen_nonneg v) as H. apply Qlt_le_trans with (1 + 0); [reflexivity|]. apply Qplus_le_r. exact H. Qed.
+Lemma qlen_map (f : Q -> Q) v : qlen (map f v) = qlen v.
+Proof. unfold qlen. now rewrite map_length. Qed.
+Lemma sumQ_affine a b v : sumQ (map (fun x => a * x + b) v) == a * sumQ v + qlen v * b.
+Proof.
+  induction v as [|x t IH].
+  - unfold qlen; cbn. ring.
+  - cbn [map]. rewrite !sumQ_cons, IH, qlen_cons. ring.
+Qed.
+Lemma sumQ_scale c (g : Q -> Q) v : sumQ (map (fun x => c * g x) v) == c * sumQ (map g v).
+Proof. induction v as [|x t IH]; [cbn; ring|]. cbn [map]. rewrite !sumQ_cons, IH. ring. Qed.
+
+Lemma mean_q_eq v : mean_q v == sumQ v / qlen v.
+Proof. unfold mean_q. now rewrite Qred_correct, sumQr_eq. Qed.
+Lemma var_q_eq v : var_q v == sumQ (map (fun x => (x - mean_q v) * (x - mean_q v)) v) / qlen v.
+Proof.
+  unfold var_q. cbv zeta. rewrite Qred_correct, sumQr_eq.
+  rewrite (sumQ_map_ext (fun x => Qred ((x - mean_q v) * (x - mean_q v))) (fun x => (x - mean_q v) * (x - mean_q v))); [reflexivity|].
+  intros x. apply Qred_correct.
+Qed.
+
+Lemma mean_stf l s x v : ~ s == 0 -> mean_q (map (stf l s) (x :: v)) == (mean_q (x :: v) - l) / s.
+Proof.
+  intros Hs. rewrite !mean_q_eq, qlen_map.
+  rewrite (sumQ_map_ext (stf l s) (fun y => (/ s) * y + (- (l / s)))).
+  2:{ intros y. rewrite stf_eq. field. exact Hs. }
+  rewrite sumQ_affine. pose proof (qlen_pos x v) as Hp. field. split; [now apply pos_nz|exact Hs].
+Qed.
+Lemma var_stf l s x v : ~ s == 0 -> var_q (map (stf l s) (x :: v)) == var_q (x :: v) / (s * s).
+Proof.
+  intros Hs. rewrite !var_q_eq, qlen_map, map_map.
+  rewrite (sumQ_map_ext (fun y => (stf l s y - mean_q (map (stf l s) (x :: v))) * (stf l s y - mean_q (map (stf l s) (x :: v))))
+                        (fun y => (/ (s * s)) * ((y - mean_q (x :: v)) * (y - mean_q (x :: v))))).
+  2:{ intros y. rewrite stf_eq, mean_stf by exact Hs. field. exact Hs. }
+  rewrite sumQ_scale. pose proof (qlen_pos x v) as Hp. field. split; [now apply pos_nz|exact Hs].
+Qed.
+
+Lemma allsome_somes c v : allsome c = Some v -> somes c = v.
+Proof.
+  revert v; induction c as [|[a|] t IH]; intros v; cbn.
+  - now intros [= <-].
+  - destruct (allsome t) as [w|]; [|discriminate]. intros [= <-]. now rewrite (IH w).
+  - discriminate.
+Qed.
+
+(** variance (and the square of the standard deviation) on the original scale = variance of the raw column, for every
+    non-zero scale and every location; in particular 0 for a constant trait, whatever scale it was given *)
+Lemma tvar_commutes (raw : list oq) (l s : Q) : ~ s == 0 ->
+  ooeq (c_var true (col_from_numpy raw (Some l) (Some s))) (Some (np_var raw)).
+Proof.
+  intros Hs. unfold c_var, np_var. rewrite stored_omapf, allsome_map.
+  destruct (allsome raw) as [[|x t]|]; try exact I.
+  unfold omap, csc, col_from_numpy, omul, olift2, ooeq, oeq. cbn [map].
+  change (var_q (stf l s x :: map (stf l s) t)) with (var_q (map (stf l s) (x :: t))).
+  rewrite !Qred_correct, var_stf by exact Hs. field. exact Hs.
+Qed.
+Lemma tmean_is_location (raw : list oq) (l s : oq) : c_mean true (col_from_numpy raw l s) = Some l.
+Proof. reflexivity. Qed.
+(** with the exact location and no missing value, tmean on the original scale is the raw mean *)
+Lemma tmean_commutes (raw : list oq) (l : Q) (s : oq) v : allsome raw = Some v -> v <> [] -> l == mean_q v ->
+  ooeq (c_mean true (col_from_numpy raw (Some l) s)) (Some (np_mean raw)).
+Proof.
+  intros Ha Hv Hl. unfold c_mean, np_mean. rewrite Ha. destruct v as [|x t]; [congruence|]. exact Hl.
+Qed.
+
+(** the stored column is centred and has unit variance when location / scale are the exact mean / a square root of the variance *)
+Lemma stored_centred (raw : list oq) (l s : Q) x t : somes raw = x :: t -> ~ s == 0 -> l == mean_q (x :: t) ->
+  oeq (nanmean (cdat (col_from_numpy raw (Some l) (Some s)))) (Some 0).
+Proof.
+  intros Hv Hs Hl. rewrite stored_omapf. unfold nanmean. rewrite somes_map, Hv.
+  cbn [map]. change (mean_q (stf l s x :: map (stf l s) t)) with (mean_q (map (stf l s) (x :: t))).
+  unfold oeq. rewrite mean_stf by exact Hs. rewrite Hl. field. exact Hs.
+Qed.
+Lemma stored_unit_variance (raw : list oq) (l s : Q) x t : somes raw = x :: t -> ~ s == 0 -> s * s == var_q (x :: t) ->
+  oeq (nanvar (cdat (col_from_numpy raw (Some l) (Some s)))) (Some 1).
+Proof.
+  intros Hv Hs Hl. rewrite stored_omapf. unfold nanvar. rewrite somes_map, Hv.
+  cbn [map]. change (var_q (stf l s x :: map (stf l s) t)) with (var_q (map (stf l s) (x :: t))).
+  unfold oeq. rewrite var_stf by exact Hs. rewrite <- Hl. field. exact Hs.
+Qed.
+
+(** * taxa-axis operations: the numpy list functions are natural in the element relation *)
+Definition orel {A B} (R : A -> B -> Prop) (a : option A) (b : option B) : Prop :=
+  match a, b with Some x, Some y => R x y | None, None => True | _, _ => False end.
+
+Lemma F2_len {X Y} (P : X -> Y -> Prop) xs ys : Forall2 P xs ys -> length xs = length ys.
+Proof. induction 1; cbn; congruence. Qed.
+
+Section Natural.
+  Context {A : Type} (R : A -> A -> Prop).
+  Lemma F2_length xs ys : Forall2 R xs ys -> length xs = length ys.
+  Proof. induction 1; cbn; congruence. Qed.
+  Lemma F2_nth_error xs ys k : Forall2 R xs ys -> orel R (nth_error xs k) (nth_error ys k).
+  Proof. intros H; revert k; induction H as [|x y tx ty Hxy _ IH]; intros [|k]; cbn; auto. Qed.
+  Lemma take_nat_rel xs ys ks : Forall2 R xs ys -> orel (Forall2 R) (take_nat xs ks) (take_nat ys ks).
+  Proof.
+    intros H. induction ks as [|k t IH]; cbn; [constructor|].
+    pose proof (F2_nth_error xs ys k H) as Hk.
+    destruct (nth_error xs k), (nth_error ys k); cbn in Hk; try contradiction; [|exact I].
+    destruct (take_nat xs t), (take_nat ys t); cbn in IH |- *; try contradiction; [|exact I]. now constructor.
+  Qed.
+  Lemma take_l_rel xs ys ix : Forall2 R xs ys -> orel (Forall2 R) (take_l xs ix) (take_l ys ix).
+  Proof.
+    intros H. unfold take_l. rewrite (F2_length _ _ H). destruct (norm_all (length ys) ix); [|exact I]. now apply take_nat_rel.
+  Qed.
+  Lemma drop_ix_rel i ks xs ys : Forall2 R xs ys -> Forall2 R (drop_ix i ks xs) (drop_ix i ks ys).
+  Proof. intros H; revert i; induction H as [|x y tx ty Hxy _ IH]; intros i; cbn; [constructor|]. destruct (existsb (Nat.eqb i) ks); [apply IH|constructor; auto]. Qed.
+  Lemma delete_l_rel xs ys ix : Forall2 R xs ys -> orel (Forall2 R) (delete_l xs ix) (delete_l ys ix).
+  Proof.
+    intros H. unfold delete_l. rewrite (F2_length _ _ H). destruct (norm_all (length ys) ix); [|exact I]. cbn. now apply drop_ix_rel.
+  Qed.
+  Lemma delete_any_rel xs ys o : Forall2 R xs ys -> orel (Forall2 R) (delete_any xs o) (delete_any ys o).
+  Proof. intros H. destruct o; cbn; now apply delete_l_rel. Qed.
+  Lemma F2_firstn k xs ys : Forall2 R xs ys -> Forall2 R (firstn k xs) (firstn k ys).
+  Proof. intros H; revert k; induction H; intros [|k]; cbn; constructor; auto. Qed.
+  Lemma F2_skipn k xs ys : Forall2 R xs ys -> Forall2 R (skipn k xs) (skipn k ys).
+  Proof. intros H; revert k; induction H; intros [|k]; cbn; try constructor; auto. Qed.
+  Lemma insert_at_rel xs ys i vs ws : Forall2 R xs ys -> Forall2 R vs ws -> orel (Forall2 R) (insert_at xs i vs) (insert_at ys i ws).
+  Proof.
+    intros H Hv. unfold insert_at. rewrite (F2_length _ _ H). destruct (norm_pos (length ys) i); [|exact I]. cbn.
+    apply Forall2_app; [now apply F2_firstn|]. apply Forall2_app; [exact Hv | now apply F2_skipn].
+  Qed.
+  Lemma pick_at_rel p ks vs ws : Forall2 R vs ws -> Forall2 R (pick_at p ks vs) (pick_at p ks ws).
+  Proof.
+    intros H; revert ks; induction H as [|v w tv tw Hvw _ IH]; intros [|k kt]; cbn; try constructor.
+    destruct (Nat.eqb k p); [constructor; auto|apply IH].
+  Qed.
+  Lemma merge_ins_rel p ks vs ws xs ys : Forall2 R vs ws -> Forall2 R xs ys -> Forall2 R (merge_ins p ks vs xs) (merge_ins p ks ws ys).
+  Proof.
+    intros Hv H; revert p; induction H as [|x y tx ty Hxy _ IH]; intros p; cbn; [now apply pick_at_rel|].
+    apply Forall2_app; [now apply pick_at_rel|]. constructor; auto.
+  Qed.
+  Lemma insert_l_rel xs ys ix vs ws : Forall2 R xs ys -> Forall2 R vs ws -> orel (Forall2 R) (insert_l xs ix vs) (insert_l ys ix ws).
+  Proof.
+    intros H Hv. unfold insert_l. rewrite (F2_length _ _ H), (F2_length _ _ Hv).
+    destruct (Nat.eqb (length ix) (length ws)); [|exact I].
+    destruct (norm_pos_all (length ys) ix); [|exact I]. cbn. now apply merge_ins_rel.
+  Qed.
+  Lemma insert_any_rel xs ys o vs ws : Forall2 R xs ys -> Forall2 R vs ws -> orel (Forall2 R) (insert_any xs o vs) (insert_any ys o ws).
+  Proof. intros H Hv. destruct o; cbn; [now apply insert_at_rel | now apply insert_l_rel]. Qed.
+  Lemma app_opt_rel xs ys vs ws : Forall2 R xs ys -> Forall2 R vs ws -> orel (Forall2 R) (app_opt xs vs) (app_opt ys ws).
+  Proof. intros H Hv. cbn. now apply Forall2_app. Qed.
+
+  Lemma all_some_rel (l1 l2 : list (option (list A))) : Forall2 (orel (Forall2 R)) l1 l2 -> orel (Forall2 (Forall2 R)) (all_some l1) (all_some l2).
+  Proof.
+    induction 1 as [|a b ta tb Hab _ IH]; cbn; [constructor|].
+    destruct a, b; cbn in Hab; try contradiction; [|exact I].
+    destruct (all_some ta), (all_some tb); cbn in IH |- *; try contradiction; [|exact I]. now constructor.
+  Qed.
+  Lemma map_cols_rel (g : list A -> option (list A)) cs ds :
+    (forall c d, Forall2 R c d -> orel (Forall2 R) (g c) (g d)) ->
+    Forall2 (Forall2 R) cs ds -> orel (Forall2 (Forall2 R)) (map_cols g cs) (map_cols g ds).
+  Proof.
+    intros Hg H. unfold map_cols. apply all_some_rel. induction H; cbn; constructor; auto.
+  Qed.
+  Lemma map2_cols_rel (g : list A -> list A -> option (list A)) cs ds vs ws :
+    (forall c d v w, Forall2 R c d -> Forall2 R v w -> orel (Forall2 R) (g c v) (g d w)) ->
+    Forall2 (Forall2 R) cs ds -> Forall2 (Forall2 R) vs ws -> orel (Forall2 (Forall2 R)) (map2_cols g cs vs) (map2_cols g ds ws).
+  Proof.
+    intros Hg H Hv. unfold map2_cols.
+    rewrite (F2_len _ _ _ H), (F2_len _ _ _ Hv). destruct (Nat.eqb (length ds) (length ws)); [|exact I].
+    apply all_some_rel. revert vs ws Hv. induction H as [|c d tc td Hcd _ IH]; intros vs ws Hv; cbn; [constructor|].
+    destruct Hv as [|v w tv tw Hvw Hv']; cbn; constructor; auto.
+  Qed.
+End Natural.
+
+Definition cols_eq := Forall2 coleq.
+Definition raw_equiv (a b : rawst) : Prop :=
+  cols_eq (r_cols a) (r_cols b) /\ r_n a = r_n b /\ r_taxa a = r_taxa b /\ r_grp a = r_grp b.
+Lemma cols_eq_refl c : cols_eq c c.
+Proof. induction c; constructor; auto using coleq_refl. Qed.
+Lemma cols_eq_sym a b : cols_eq a b -> cols_eq b a.
+Proof. induction 1; constructor; auto using coleq_sym. Qed.
+Lemma cols_eq_trans a b c : cols_eq a b -> cols_eq b c -> cols_eq a c.
+Proof.
+  intros H; revert c; induction H as [|x y tx ty Hxy _ IH]; intros c H2; inversion H2; subst; constructor.
+  - eapply coleq_trans; eassumption.
+  - now apply IH.
+Qed.
+Lemma raw_equiv_refl a : raw_equiv a a.
+Proof. repeat split; apply cols_eq_refl. Qed.
+Lemma raw_equiv_sym a b : raw_equiv a b -> raw_equiv b a.
+Proof. intros (H1 & H2 & H3 & H4). repeat split; auto using cols_eq_sym. Qed.
+Lemma raw_equiv_trans a b c : raw_equiv a b -> raw_equiv b c -> raw_equiv a c.
+Proof. intros (H1 & H2 & H3 & H4) (G1 & G2 & G3 & G4). repeat split; try congruence. eapply cols_eq_trans; eassumption. Qed.
+
+Definition op_copy (o : op) : bool :=
+  match o with OSelect _ | ODelete _ | OInsert _ _ | OAdjoin _ => true | _ => false end.
+
+Lemma chk_rel a b : raw_equiv a b -> orel raw_equiv (chk a) (chk b).
+Proof.
+  intros (H1 & H2 & H3 & H4). unfold chk. rewrite H2, H3, H4.
+  destruct (label_len_ok (r_n b) (r_taxa b) && label_len_ok (r_n b) (r_grp b)); [|exact I]. repeat split; assumption.
+Qed.
+Lemma chk_some a r : chk a = Some r -> r = a /\ label_len_ok (r_n a) (r_taxa a) && label_len_ok (r_n a) (r_grp a) = true.
+Proof. unfold chk. destruct (label_len_ok (r_n a) (r_taxa a) && label_len_ok (r_n a) (r_grp a)); [|discriminate]. intros [= <-]. auto. Qed.
+
+(** the raw-level step is natural in the raw values (of the state and of the operand) *)
+Lemma raw_step_rel vals1 vals2 r1 r2 o : op_copy o = true -> raw_equiv r1 r2 ->
+  (forall v, op_operand o = Some v -> cols_eq (vals1 v) (vals2 v)) ->
+  orel raw_equiv (raw_step vals1 r1 o) (raw_step vals2 r2 o).
+Proof.
+  intros Hc (H1 & H2 & H3 & H4) Hv. destruct o; try discriminate; cbn [raw_step]; rewrite H2, H3, H4.
+  - (* select *)
+    pose proof (map_cols_rel oeq (fun c => take_l c ix) _ _ (fun c d => take_l_rel oeq c d ix) H1) as Hm.
+    destruct (map_cols (fun c => take_l c ix) (r_cols r1)), (map_cols (fun c => take_l c ix) (r_cols r2)); cbn in Hm; try contradiction; [|exact I].
+    destruct (olabels _ (r_taxa r2)); [|exact I]. destruct (olabels _ (r_grp r2)); [|exact I].
+    destruct (new_n _ (r_n r2)); [|exact I]. apply chk_rel. repeat split; assumption.
+  - (* delete *)
+    pose proof (map_cols_rel oeq (fun c => delete_any c o) _ _ (fun c d => delete_any_rel oeq c d o) H1) as Hm.
+    destruct (map_cols (fun c => delete_any c o) (r_cols r1)), (map_cols (fun c => delete_any c o) (r_cols r2)); cbn in Hm; try contradiction; [|exact I].
+    destruct (olabels _ (r_taxa r2)); [|exact I]. destruct (olabels _ (r_grp r2)); [|exact I].
+    destruct (new_n _ (r_n r2)); [|exact I]. apply chk_rel. repeat split; assumption.
+  - (* insert *)
+    destruct (operand_usable v); [|exact I].
+    pose proof (map2_cols_rel oeq (fun c x => insert_any c o x) _ _ _ _ (fun c d x y => insert_any_rel oeq c d o x y) H1 (Hv v eq_refl)) as Hm.
+    destruct (map2_cols (fun c x => insert_any c o x) (r_cols r1) (vals1 v)), (map2_cols (fun c x => insert_any c o x) (r_cols r2) (vals2 v)); cbn in Hm; try contradiction; [|exact I].
+    destruct (copy_labels (r_taxa r2) (r_grp r2) v _) as [[t g]|]; [|exact I].
+    destruct (new_n _ (r_n r2)); [|exact I]. apply chk_rel. repeat split; assumption.
+  - (* adjoin *)
+    destruct (operand_usable v); [|exact I].
+    pose proof (map2_cols_rel oeq app_opt _ _ _ _ (app_opt_rel oeq) H1 (Hv v eq_refl)) as Hm.
+    destruct (map2_cols app_opt (r_cols r1) (vals1 v)), (map2_cols app_opt (r_cols r2) (vals2 v)); cbn in Hm; try contradiction; [|exact I].
+    destruct (copy_labels (r_taxa r2) (r_grp r2) v app_opt) as [[t g]|]; [|exact I].
+    apply chk_rel. repeat split; assumption.
+Qed.
+
+Lemma raw_step_labels_ok vals r o r' : op_copy o = true -> raw_step vals r o = Some r' ->
+  label_len_ok (r_n r') (r_taxa r') && label_len_ok (r_n r') (r_grp r') = true.
+Proof.
+  intros Hc. destruct o; try discriminate; cbn [raw_step].
+  - destruct (map_cols _ _); [|discriminate]. destruct (olabels _ (r_taxa r)); [|discriminate]. destruct (olabels _ (r_grp r)); [|discriminate].
+    destruct (new_n _ _); [|discriminate]. intros H. apply chk_some in H as [-> H]. exact H.
+  - destruct (map_cols _ _); [|discriminate]. destruct (olabels _ (r_taxa r)); [|discriminate]. destruct (olabels _ (r_grp r)); [|discriminate].
+    destruct (new_n _ _); [|discriminate]. intros H. apply chk_some in H as [-> H]. exact H.
+  - destruct (operand_usable v); [|discriminate]. destruct (map2_cols _ _ _); [|discriminate].
+    destruct (copy_labels _ _ _ _) as [[t g]|]; [|discriminate]. destruct (new_n _ _); [|discriminate].
+    intros H. apply chk_some in H as [-> H]. exact H.
+  - destruct (operand_usable v); [|discriminate]. destruct (map2_cols _ _ _); [|discriminate].
+    destruct (copy_labels _ _ _ _) as [[t g]|]; [|discriminate].
+    intros H. apply chk_some in H as [-> H]. exact H.
+Qed.
+
+(** from_numpy followed by unscale gives back the raw columns when the parameters pass the run-time check *)
+Lemma map2_from_numpy_unscale (cols : list (list oq)) (p : list prm) : params_ok cols p = true ->
+  cols_eq (map col_unscale (map2 (fun c lp => col_from_numpy c (fst lp) (snd lp)) cols p)) cols.
+Proof.
+  unfold params_ok. intros H. apply andb_prop in H as [Hl H]. apply Nat.eqb_eq in Hl.
+  revert p Hl H. induction cols as [|c tc IH]; intros [|lp tp] Hl H; cbn in *; try discriminate; [constructor|].
+  apply andb_prop in H as [Hc H]. apply andb_prop in Hc as [Hc1 Hc2].
+  constructor; [now apply unscale_from_numpy_col|]. apply IH; [congruence|exact H].
+Qed.
+Lemma from_numpy_unscale r p b : from_numpy r p = Some b -> params_ok (r_cols r) p = true -> raw_equiv (unscale b) r.
+Proof.
+  unfold from_numpy. destruct (_ && _); [|discriminate]. intros [= <-] Hp. unfold unscale; cbn.
+  repeat split. now apply map2_from_numpy_unscale.
+Qed.
+Lemma from_numpy_some r p : label_len_ok (r_n r) (r_taxa r) && label_len_ok (r_n r) (r_grp r) = true -> params_ok (r_cols r) p = true ->
+  exists b, from_numpy r p = Some b.
+Proof.
+  intros Hl Hp. unfold from_numpy. rewrite Hl. unfold params_ok in Hp. apply andb_prop in Hp as [Hp _]. rewrite Hp. cbn. eauto.
+Qed.
+Lemma opd_unscaled_raw v : opd_params_ok v = true -> cols_eq (opd_unscaled v) (opd_raw v).
+Proof.
+  unfold opd_params_ok, opd_unscaled, opd_raw, opd_cols. destruct (o_bv v) as [p|]; intros H; [|apply cols_eq_refl].
+  now apply map2_from_numpy_unscale.
+Qed.
+
+(** one copy-on-manipulation step: the source (unscale, list operation, from_numpy) and the raw-level specification fail together
+    or succeed together, and then the new matrix stands for the specified raw values and labels *)
+Lemma step_sound b o p r : op_copy o = true -> raw_equiv r (unscale b) -> step_ok b o p = true ->
+  orel (fun r' b' => raw_equiv r' (unscale b')) (raw_step opd_raw r o) (step b o p).
+Proof.
+  intros Hc He Hok.
+  assert (Hs : step b o p = match raw_step opd_unscaled (unscale b) o with Some r2 => from_numpy r2 p | None => None end)
+    by (destruct o; try discriminate; reflexivity).
+  rewrite Hs. unfold step_ok in Hok. apply andb_prop in Hok as [Hov Hok].
+  assert (Hp : match raw_step opd_unscaled (unscale b) o with Some r2 => params_ok (r_cols r2) p | None => true end = true)
+    by (destruct o; try discriminate; exact Hok).
+  assert (Hvals : forall v, op_operand o = Some v -> cols_eq (opd_raw v) (opd_unscaled v)).
+  { intros v Hv. rewrite Hv in Hov. apply cols_eq_sym. now apply opd_unscaled_raw. }
+  pose proof (raw_step_rel opd_raw opd_unscaled r (unscale b) o Hc He Hvals) as Hr.
+  destruct (raw_step opd_raw r o) as [r1|] eqn:E1, (raw_step opd_unscaled (unscale b) o) as [r2|] eqn:E2; cbn in Hr; try contradiction; [|exact I].
+  pose proof (raw_step_labels_ok _ _ _ _ Hc E2) as Hl.
+  destruct (from_numpy_some r2 p Hl Hp) as [b' Hb']. rewrite Hb'. cbn.
+  eapply raw_equiv_trans; [exact Hr|]. apply raw_equiv_sym. eapply from_numpy_unscale; eassumption.
+Qed.
+
+(** every history of select / delete / insert / adjoin *)
+Lemma ops_preserve_raw (ops : list (op * list prm)) : forall (b : bv) (r : rawst),
+  raw_equiv r (unscale b) -> forallb (fun x => op_copy (fst x)) ops = true -> run_ok b ops = true ->
+  raw_equiv (run_spec r (map fst ops)) (unscale (run b ops)).
+Proof.
+  induction ops as [|[o p] t IH]; intros b r He Hc Hok; cbn in *; [exact He|].
+  apply andb_prop in Hc as [Hc Hct]. apply andb_prop in Hok as [Hok Hokt].
+  pose proof (step_sound b o p r Hc He Hok) as Hs. unfold run_spec in *. cbn [fold_left]. unfold spec_step at 2.
+  destruct (raw_step opd_raw r o) as [r'|], (step b o p) as [b'|]; cbn in Hs; try contradiction; now apply IH.
+Qed.
+
+(** starting point of a history: the matrix built by from_numpy stands for its raw input *)
+Lemma history_preserves_raw (r0 : rawst) (p0 : list prm) (b0 : bv) (ops : list (op * list prm)) :
+  from_numpy r0 p0 = Some b0 -> params_ok (r_cols r0) p0 = true ->
+  forallb (fun x => op_copy (fst x)) ops = true -> run_ok b0 ops = true ->
+  raw_equiv (run_spec r0 (map fst ops)) (unscale (run b0 ops)).
+Proof.
+  intros Hb Hp Hc Hok. apply ops_preserve_raw; auto. apply raw_equiv_sym. eapply from_numpy_unscale; eassumption.
+Qed.
+
+(** * the in-place remove_taxa keeps the raw values of the retained taxa (but not the location: see below) *)
+Lemma drop_ix_map {A B} (g : A -> B) i ks xs : drop_ix i ks (map g xs) = map g (drop_ix i ks xs).
+Proof. revert i; induction xs as [|x t IH]; intros i; cbn; [reflexivity|]. destruct (existsb (Nat.eqb i) ks); cbn; now rewrite IH. Qed.
+Lemma delete_any_map {A B} (g : A -> B) xs o : delete_any (map g xs) o = omap (map g) (delete_any xs o).
+Proof.
+  destruct o; cbn; unfold delete_l; rewrite map_length.
+  - destruct (norm_all (length xs) [i]); cbn; [now rewrite drop_ix_map|reflexivity].
+  - destruct (norm_all (length xs) l); cbn; [now rewrite drop_ix_map|reflexivity].
+Qed.
+Lemma remove_col (c : tcol) (ob : idx) (d' : list oq) : delete_any (cdat c) ob = Some d' ->
+  delete_any (col_unscale c) ob = Some (col_unscale (mkcol d' (cloc c) (csc c))).
+Proof. intros H. unfold col_unscale. rewrite delete_any_map, H. reflexivity. Qed.
+
+Lemma all_some_F2 {A B} (f : A -> option B) (l : list A) (r : list B) : all_some (map f l) = Some r -> Forall2 (fun a b => f a = Some b) l r.
+Proof.
+  revert r; induction l as [|a t IH]; intros r; cbn; [intros [= <-]; constructor|].
+  destruct (f a) eqn:E; [|discriminate]. destruct (all_some (map f t)) eqn:E2; cbn; [|discriminate]. intros [= <-]. constructor; auto.
+Qed.
+Lemma remove_preserves_raw (b b' : bv) (ob : idx) (p : list prm) : step b (ORemove ob) p = Some b' ->
+  Forall2 (fun c c' => delete_any (col_unscale c) ob = Some (col_unscale c') /\ cloc c' = cloc c /\ csc c' = csc c) (bcols b) (bcols b')
+  /\ olabels (fun l => delete_any l ob) (btaxa b) = Some (btaxa b') /\ olabels (fun l => delete_any l ob) (bgrp b) = Some (bgrp b').
+Proof.
+  cbn [step]. unfold map_cols. rewrite map_map.
+  destruct (all_some (map (fun x => delete_any (cdat x) ob) (bcols b))) as [ds|] eqn:E; [|discriminate].
+  destruct (olabels _ (btaxa b)) as [t|]; [|discriminate]. destruct (olabels _ (bgrp b)) as [g|]; [|discriminate].
+  destruct (new_n _ (bn b)); [|discriminate]. intros [= <-]. cbn. split; [|split; reflexivity].
+  apply all_some_F2 in E. induction E as [|c d tc td Hcd _ IH]; cbn; constructor; [|exact IH].
+  split; [now apply remove_col|split; reflexivity].
+Qed.
+
+(** * refutations by witness: the inherited in-place append_taxa / incorp_taxa and concat_taxa do not preserve raw values *)
+Lemma coleq_eqb a b : coleq a b -> list_eqb oexact a b = true.
+Proof.
+  induction 1 as [|x y tx ty Hxy _ IH]; cbn; [reflexivity|]. rewrite IH, andb_true_r.
+  destruct x, y; cbn in *; try contradiction; [now apply Qeq_bool_iff|reflexivity].
+Qed.
+Lemma cols_eq_eqb a b : cols_eq a b -> list_eqb (list_eqb oexact) a b = true.
+Proof. induction 1 as [|x y tx ty Hxy _ IH]; cbn; [reflexivity|]. now rewrite IH, andb_true_r, (coleq_eqb _ _ Hxy). Qed.
+
+Definition wit_raw : rawst := mkraw [[Some 0; Some 2; Some 2; Some 0]] 4 None None.
+Definition wit_prm : list prm := [(Some 1, Some 1)].
+Definition wit_nd : operand := mkopd [[Some 10]] 1 None true None None None None.
+
+Lemma append_refuted : exists r p b v b' r',
+  from_numpy r p = Some b /\ params_ok (r_cols r) p = true /\ step b (OAppend v) [] = Some b' /\
+  raw_step opd_raw (unscale b) (OAppend v) = Some r' /\ ~ raw_equiv r' (unscale b').
+Proof.
+  exists wit_raw, wit_prm. eexists. exists wit_nd. eexists. eexists.
+  split; [reflexivity|]. split; [vm_compute; reflexivity|]. split; [reflexivity|]. split; [reflexivity|].
+  intros (H & _). apply cols_eq_eqb in H. vm_compute in H. discriminate H.
+Qed.
+Lemma incorp_refuted : exists r p b v b' r',
+  from_numpy r p = Some b /\ params_ok (r_cols r) p = true /\ step b (OIncorp (IInt 0) v) [] = Some b' /\
+  raw_step opd_raw (unscale b) (OIncorp (IInt 0) v) = Some r' /\ ~ raw_equiv r' (unscale b').
+Proof.
+  exists wit_raw, wit_prm. eexists. exists wit_nd. eexists. eexists.
+  split; [reflexivity|]. split; [vm_compute; reflexivity|]. split; [reflexivity|]. split; [reflexivity|].
+  intros (H & _). apply cols_eq_eqb in H. vm_compute in H. discriminate H.
+Qed.
+Definition wit_part : part := mkpart [[Some 10; Some 30]] 2 [(Some 20, Some 10)] None None.
+Lemma concat_refuted : exists r p b q b' r',
+  from_numpy r p = Some b /\ params_ok (r_cols r) p = true /\ params_ok (p_cols q) (p_prm q) = true /\
+  step b (OConcat true [] [q]) [] = Some b' /\
+  raw_step opd_raw (unscale b) (OConcat true [] [q]) = Some r' /\ ~ raw_equiv r' (unscale b').
+Proof.
+  exists wit_raw, wit_prm. eexists. exists wit_part. eexists. eexists.
+  split; [reflexivity|]. split; [vm_compute; reflexivity|]. split; [vm_compute; reflexivity|]. split; [reflexivity|]. split; [reflexivity|].
+  intros (H & _). apply cols_eq_eqb in H. vm_compute in H. discriminate H.
+Qed.
+(** the subclasses cannot concatenate at all *)
+Lemma concat_subclass_fails b before after p : step b (OConcat false before after) p = None.
+Proof. reflexivity. Qed.
+(** after remove_taxa the location is no longer the mean of the raw values the matrix stands for *)
+Lemma remove_stale_refuted : exists r p b b',
+  from_numpy r p = Some b /\ params_ok (r_cols r) p = true /\ step b (ORemove (IInt 0)) [] = Some b' /\
+  params_ok (r_cols (unscale b')) (map (fun c => (cloc c, csc c)) (bcols b')) = false.
+Proof.
+  exists wit_raw, wit_prm. eexists. eexists.
+  split; [reflexivity|]. split; [vm_compute; reflexivity|]. split; [reflexivity|]. vm_compute. reflexivity.
+Qed.
+(** tmean(unscale=True) is the only NaN-aware summary: finite while maximum (and all others) of the same trait are NaN *)
+Lemma tmean_nan_refuted : exists raw l s, loc_ok raw l = true /\ sc_ok raw s = true /\
+  c_max true (col_from_numpy raw l s) = Some None /\ np_mean raw = None /\ c_mean true (col_from_numpy raw l s) = Some (Some 2).
+Proof.
+  exists [Some 1; None; Some 3], (Some 2), (Some 1). repeat split; vm_compute; reflexivity.
+Qed.
+
+(** * guarded versions: what does hold for the in-place append and for concat_taxa *)
+(** appending the stored values of a matrix that has the same location and (non-zero) scale *)
+Lemma append_same_params_col (c : tcol) (w : list oq) (l s : Q) : cloc c = Some l -> csc c = Some s -> ~ s == 0 ->
+  coleq (col_unscale (mkcol (cdat c ++ cdat (col_from_numpy w (Some l) (Some s))) (cloc c) (csc c))) (col_unscale c ++ w).
+Proof.
+  intros Hl Hs Hnz. unfold col_unscale. cbn [cdat cloc csc]. rewrite map_app. apply Forall2_app; [apply coleq_refl|].
+  rewrite Hl, Hs. apply (unscale_from_numpy_some w l s Hnz).
+Qed.
+(** a column stored with location 0 and scale 1 is its own raw column *)
+Lemma zero_one_unscale (c : list oq) : coleq (col_unscale (zero_one c)) c.
+Proof.
+  unfold col_unscale, zero_one; cbn [cdat cloc csc]. induction c as [|[v|] t IH]; cbn [map]; constructor; auto.
+  unfold oadd, omul, olift2, oeq. rewrite !Qred_correct. ring. exact I.
+Qed.
+Lemma from_numpy_zero_one (w : list oq) : coleq (cdat (col_from_numpy w (Some 0) (Some 1))) w.
+Proof.
+  cbn [cdat col_from_numpy]. induction w as [|[v|] t IH]; cbn [map]; constructor; auto.
+  unfold oinv, osub, omul, olift2, oeq. rewrite !Qred_correct. field. exact I.
+Qed.
+
+(** * DenseScaledMatrix *)
+Lemma untransform_transform (c : tcol) (m : list oq) l s : cloc c = Some l -> csc c = Some s -> ~ s == 0 ->
+  coleq (col_untransform c (col_transform c m)) m.
+Proof.
+  intros Hl Hs Hnz. unfold col_untransform, col_transform. rewrite map_map, Hl, Hs.
+  induction m as [|[v|] t IH]; cbn [map]; constructor; auto.
+  unfold oadd, omul, osub, oinv, olift2, oeq. rewrite !Qred_correct. field. exact Hnz. exact I.
+Qed.
+Definition col_raw (c : tcol) : list oq := col_untransform c (cdat c).
+Lemma unscale_inplace_raw (c : tcol) : coleq (col_raw (col_unscale_ip c)) (col_raw c)
+  /\ cloc (col_unscale_ip c) = Some 0 /\ csc (col_unscale_ip c) = Some 1.
+Proof.
+  split; [|split; reflexivity]. unfold col_raw, col_unscale_ip. cbn [cdat cloc csc].
+  generalize (col_untransform c (cdat c)). intros r. unfold col_untransform. cbn [cloc csc].
+  induction r as [|[v|] t IH]; cbn [map]; constructor; auto.
+  unfold oadd, omul, olift2, oeq. rewrite !Qred_correct. ring. exact I.
+Qed.
+Lemma rescale_raw (c : tcol) (l s : oq) : loc_ok (col_raw c) l = true -> sc_ok (col_raw c) s = true ->
+  coleq (col_raw (col_rescale c l s)) (col_raw c).
+Proof.
+  intros H1 H2. unfold col_raw at 1. unfold col_rescale. cbn [cdat cloc csc]. fold (col_raw c).
+  destruct (params_shape _ l s H1 H2) as [[Hn [-> ->]]|[l' [s' [-> [-> Hs]]]]].
+  - unfold col_untransform. cbn [cloc csc]. rewrite map_map. clear H1 H2. revert Hn. generalize (col_raw c). intros r Hn. induction Hn as [|x t Hx _ IH]; cbn [map]; [constructor|]. constructor; [subst x; exact I|exact IH].
+  - unfold col_untransform. cbn [cloc csc]. rewrite map_map. generalize (col_raw c). intros r.
+    induction r as [|[v|] t IH]; cbn [map]; constructor; auto.
+    unfold oadd, omul, osub, oinv, olift2, oeq. rewrite !Qred_correct. field. exact Hs. exact I.
+Qed.
+
+(** * constant traits: the run-time check only accepts scale 1, and then the stored column is all zeros *)
+Lemma Qsqr_nonneg a : 0 <= a * a.
+Proof. unfold Qle, Qmult. cbn. rewrite Z.mul_1_r. apply Z.square_nonneg. Qed.
+Lemma sumQ_sq_nonneg (m : Q) v : 0 <= sumQ (map (fun x => (x - m) * (x - m)) v).
+Proof.
+  induction v as [|x t IH]; [apply Qle_refl|]. cbn [map]. rewrite sumQ_cons.
+  apply Qle_trans with (0 + 0); [apply Qle_refl|]. apply Qplus_le_compat; [apply Qsqr_nonneg|exact IH].
+Qed.
+Lemma sumQ_sq_zero (m : Q) v : sumQ (map (fun x => (x - m) * (x - m)) v) == 0 -> Forall (fun x => x == m) v.
+Proof.
+  induction v as [|x t IH]; [constructor|]. cbn [map]. rewrite sumQ_cons. intros H.
+  pose proof (Qsqr_nonneg (x - m)) as Ha. pose proof (sumQ_sq_nonneg m t) as Hb.
+  assert (Hx : (x - m) * (x - m) == 0).
+  { apply Qle_antisym; [|exact Ha]. rewrite <- H. rewrite <- (Qplus_0_r ((x - m) * (x - m))) at 1. apply Qplus_le_r. exact Hb. }
+  constructor.
+  - apply Qmult_integral in Hx. assert (x - m == 0) by tauto. rewrite <- (Qplus_0_r m), <- H0. ring.
+  - apply IH. rewrite Hx in H. rewrite Qplus_0_l in H. exact H.
+Qed.
+Lemma constant_trait (raw : list oq) (l s : Q) x t : somes raw = x :: t -> var_q (x :: t) == 0 ->
+  sc_ok raw (Some s) = true -> l == mean_q (x :: t) ->
+  s == 1 /\ Forall (fun m => match m with Some v => v == 0 | None => True end) (cdat (col_from_numpy raw (Some l) (Some s))).
+Proof.
+  intros Hv Hvar Hs Hl. unfold sc_ok, nanvar in Hs. rewrite Hv in Hs.
+  assert (E : Qeq_bool (var_q (x :: t)) 0 = true) by now apply Qeq_bool_iff. rewrite E in Hs. apply Qeq_bool_iff in Hs.
+  split; [exact Hs|].
+  rewrite var_q_eq in Hvar. pose proof (qlen_pos x t) as Hp.
+  assert (Hsum : sumQ (map (fun y => (y - mean_q (x :: t)) * (y - mean_q (x :: t))) (x :: t)) == 0).
+  { assert (HS : forall a d : Q, ~ d == 0 -> a / d == 0 -> a == 0).
+    { intros a d Hn H0. assert (HS : a == (a / d) * d) by (field; exact Hn). rewrite HS, H0. ring. }
+    apply (HS _ (qlen (x :: t))); [now apply pos_nz | exact Hvar]. }
+  apply sumQ_sq_zero in Hsum. set (m := mean_q (x :: t)) in *. rewrite <- Hv in Hsum.
+  rewrite stored_omapf. clear Hv Hvar Hp E. clearbody m. induction raw as [|[v|] r IH]; cbn [map somes] in *; constructor.
+  - inversion Hsum; subst. cbn [omapf]. rewrite stf_eq, Hs, Hl, H1. field.
+  - apply IH. now inversion Hsum.
+  - exact I.
+  - now apply IH.
+Qed.
